@@ -25,6 +25,15 @@ CHECKS = {
  "C08": dict(engine="persist", ref="5 C08",
    text="Commit, DropCache and reopen are stuttering steps of the abstract model; the multi-run acceptor executes each TLC-simulated history (arrays and maps, including reads and rejected requests) under five schedules from 'commit only at the end' to 'commit after every operation', with cache drops and reopenings at random points, and requires identical per-operation results, identical final content and byte-identical final registers.",
    note="only root handles are kept across cache drops (handle-tree discipline, DESIGN 4.2); no composite type infos here so registers must be byte-identical"),
+ "C09": dict(engine="nested", ref="5 C09",
+   text="After every operation of TLC-explored array histories, map histories under all digest assignments, clustered-digest map walks and simulated nested-container walks (the harness disposes of or keeps, as the TLC history dictates, every value the library hands back, deep-disposing inlined children) the set of slab identifiers in the storage view (write set over ledger) must equal the set reachable from the roots the caller holds (NoLeak).",
+   note="reachability is computed by the harness's own projection through verif-tagged slab descriptions, not by CheckStorageHealth (which is itself under test in C20)"),
+ "C10": dict(engine="nested", ref="5 C10, 3.7",
+   text="Nested.tla models a heap of up to 6-8 arrays and maps (depth 3, wrapped / unwrapped, simple and composite types), live handles under the handle-tree discipline, mutation through any live handle, handles obtained on insertion, by lookup and by mutable iteration, parent restructuring, children crossing the inline limits both ways, detach / keep / dispose / re-attach, commit / cache drop / crash. TLC-simulated walks and a scripted family for same-typed composite siblings are replayed into the real code; NestedTrace.tla requires after every step that everything read through every root expands to the model forest (ReadsThrough), that a brand-new storage reads the same forest after each commit (Persisted), that every container at every depth satisfies TreeInv (AllValid) and is inlined exactly when it fits (InlineRule).",
+   note="verdicts only inside the handle-tree discipline (DESIGN 4.2, 9 F3); generated by simulation, not exhaustive; found and fixed two genuine defects (known_findings.json)"),
+ "C11": dict(engine="nested", ref="5 C11",
+   text="Same walks as C10: they remove / overwrite children that the caller keeps, mutate the detached child through its old handle, re-attach it elsewhere and mutate the former parent in between. Verdict predicates of NestedTrace.tla: ReadsThrough (the former parent follows the model, which changes only the detached container), OtherRootsUntouched (the projected slabs of every other root are bit-identical before and after a mutation of a detached container), RootsStandalone (a kept container is an independently stored root value with the same value id), Persisted (it reloads by its identifier).",
+   note="simulation, not exhaustive; handle-tree discipline as in C10"),
  "C12": dict(engine="map", ref="5 C12",
    text="TLC explores, for every digest assignment over {0,1}^4 of 3 keys and collision limits 0, 1, 2, 255, all insert/update/remove histories to closure, checking that the element algorithm refuses exactly the inserts the layer-A rule refuses and changes nothing then. Every explored transition is replayed into the real OrderedMap with a table-driven digester and the limit set through the verif hook; dictionary semantics, refusal rule, unchanged-on-refusal and TreeInv (sorted unique digests per level, group sizes, level-1 spill, element limit) are validated after every step; clustered-digest walks over 24 keys add spill/collapse across slab boundaries.",
    note="exhaustive for 3 keys x {0,1}^4 in thorough tier, sampled in quick; limit 255 with 257 keys is not enumerated"),
@@ -71,6 +80,7 @@ def main():
         "engines": [
             {"name": "array", "path": "spec/ArraySeq.tla spec/ArrayTree.tla spec/TreeInv.tla spec/Thresholds.tla spec/MC_Array.tla spec/ArrayTrace.tla harness/world.go harness/ops.go harness/array_engine.go", "serves_properties": ["C01", "C05", "C06", "C09", "C13", "C17", "C18"], "kind_free_text": "TLC state graph + simulated walks of the array algorithm replayed into the real Array; traces validated against sequence semantics and TreeInv"},
             {"name": "map", "path": "spec/MapDict.tla spec/MapTree.tla spec/MC_Map.tla spec/MC_MapWalk.tla spec/MapTrace.tla harness/map_engine.go harness/digest.go", "serves_properties": ["C02", "C05", "C06", "C09", "C12", "C13", "C17", "C18"], "kind_free_text": "all digest assignments x histories (TLC) + simulated walks replayed into the real OrderedMap with a table-driven digester"},
+            {"name": "nested", "path": "spec/Nested.tla spec/NestedTrace.tla spec/TreeInv.tla harness/nested_engine.go", "serves_properties": ["C01", "C09", "C10", "C11"], "kind_free_text": "TLC-simulated walks of a heap of nested containers with handles, replayed and validated against the expansion of the heap"},
             {"name": "persist", "path": "spec/ArrayTrace.tla spec/MapTrace.tla spec/MultiRunTrace.tla harness/multirun.go", "serves_properties": ["C03", "C04", "C07", "C08", "C14"], "kind_free_text": "commit / drop-cache / crash events inside container histories with cold reads of the ledger; multi-run acceptor"},
             {"name": "storage", "path": "spec/SlabStorage.tla spec/MC_SlabStorage.tla spec/SlabStorageTrace.tla harness/storage_engine.go", "serves_properties": ["C03", "C04", "C14", "C15"], "kind_free_text": "TLC closure + edge replay + trace validation of PersistentSlabStorage"},
         ],
